@@ -524,7 +524,11 @@ def run_live(case):
                 holders.append(p)
             for k in range(case["extra"]):
                 p = live.RawPeer(srv.address())
-                p.send(p.connect_msg("t") + p.invoke_msg("t", "hit", (k,), {}, seq=5))
+                first = p.connect_msg("t")
+                if k % 2 == 1:
+                    # a peer that names a serializer this daemon does not have: turned away for lack of workers all the same, and told so
+                    first = wire.ref_encode(wire.CONNECT, 0, 1, 99, live.raw_dumps("marshal", {"handshake": "hello", "object": "t"}))
+                p.send(first + p.invoke_msg("t", "hit", (k,), {}, seq=5))
                 p.half_close()
                 msgs, ended = p.read_until_closed()
                 p.close()
